@@ -94,6 +94,8 @@ def gen_valid(rng, v, cfg, serial, kinds_ops):
             kind = rng.choice(H.NONLOAD)
         else:
             kind = rng.choice(H.LOADS + H.NONLOAD)
+        if v.ctype[t] not in ("SOURCE", "PMUX") and not v.muxes and rng.random() < 0.06:
+            kind = "pmux"               # a single-input component may become THE PMux of a system that has none
         same = rng.random() < 0.55
         n = t if same else v.fresh(rng, cfg, H.NAMES, H.RAILS)
         if n is None:
